@@ -10,6 +10,7 @@ import (
 	iofs "io/fs"
 	"os"
 	"path/filepath"
+	"strings"
 	"sync"
 	"testing"
 	"time"
@@ -38,17 +39,17 @@ type c11Op struct {
 
 type c11Case struct {
 	Img   string  `json:"img"`   // gpt (fat32 + ext4 + fat16 partitions), mbr (fat32 + ext4), fat12, fat16, iso9660, squashfs
-	Route string  `json:"route"` // writable-fails, file-new-ro, open-ro, frompath-ro, rw-reads-only
+	Route string  `json:"route"` // writable-fails, file-new-ro, file-new-osfile-ro, open-ro, frompath-ro, rw-reads-only
 	Ops   []c11Op `json:"ops"`
 }
 
 var c11Mut = []string{"partition", "writepart", "createfs", "mkdir-new", "create", "write", "trunc", "append", "rename", "remove", "setlabel", "chmod", "chown", "chtimes", "symlink", "attr", "mkdir-existing", "open-rw"}
-var c11Read = []string{"gettable", "getfs", "readpart", "verify", "readdir", "readfile", "stat", "readlink", "label", "open-read"}
+var c11Read = []string{"gettable", "getfs", "readpart", "verify", "readdir", "readfile", "stat", "readlink", "label", "open-read", "read-missing"}
 
 func genC11(t *rapid.T) any {
 	c := c11Case{}
 	c.Img = rapid.SampledFrom([]string{"gpt", "gpt", "mbr", "fat12", "fat16", "iso9660", "squashfs"}).Draw(t, "img")
-	c.Route = rapid.SampledFrom([]string{"writable-fails", "file-new-ro", "open-ro", "frompath-ro", "rw-reads-only"}).Draw(t, "route")
+	c.Route = rapid.SampledFrom([]string{"writable-fails", "file-new-ro", "file-new-osfile-ro", "open-ro", "frompath-ro", "rw-reads-only"}).Draw(t, "route")
 	n := rapid.IntRange(3, 25).Draw(t, "nops")
 	for i := 0; i < n; i++ {
 		op := c11Op{Part: rapid.IntRange(1, 3).Draw(t, "part"), N: rapid.IntRange(0, 3).Draw(t, "variant")}
@@ -233,7 +234,7 @@ func execC11(ci any) (r hx.Result) {
 		d = dev.FromBytes(im.bytes, im.size) // the device itself stays writable: a write that gets through is seen
 		b = file.New(d, true)
 		dk, err = diskfs.OpenBackend(b, lssOpt...)
-	case "open-ro", "frompath-ro":
+	case "open-ro", "frompath-ro", "file-new-osfile-ro":
 		dir, terr := os.MkdirTemp("", "verif_c11")
 		if terr != nil {
 			r.Discard = true
@@ -248,6 +249,14 @@ func execC11(ci any) (r hx.Result) {
 		if c.Route == "open-ro" {
 			opts := append([]diskfs.OpenOpt{diskfs.WithOpenMode(diskfs.ReadOnly)}, lssOpt...)
 			dk, err = diskfs.Open(path, opts...)
+		} else if c.Route == "file-new-osfile-ro" {
+			// the caller's handle is writable; the read-only promise rests on file.New alone
+			var fh *os.File
+			fh, err = os.OpenFile(path, os.O_RDWR, 0)
+			if err == nil {
+				b = file.New(fh, true)
+				dk, err = diskfs.OpenBackend(b, lssOpt...)
+			}
 		} else {
 			b, err = file.OpenFromPath(path, true)
 			if err == nil {
@@ -521,6 +530,24 @@ func execC11(ci any) (r hx.Result) {
 				}
 			case "label":
 				call(func() error { _ = fs.Label(); return nil })
+			case "read-missing":
+				// reading calls on names that do not exist - in an existing directory, under a missing
+				// parent, two levels down - must report that and leave the image alone
+				miss := []string{"/NOFILE.TXT", "/NODIR/X.TXT", "/D/NOSUB/DEEP/Y.TXT", "/NODIR"}[op.N%4]
+				missOpen := miss
+				if kind == "ext4" {
+					miss = strings.ToLower(miss)
+					missOpen = trimSlash(miss, kind)
+				}
+				call(func() error {
+					_, _ = fs.ReadFile(trimSlash(miss, kind))
+					if f, e := fs.OpenFile(missOpen, os.O_RDONLY); e == nil {
+						f.Close()
+					}
+					_, _ = iofs.Stat(fs, trimSlash(miss, kind))
+					_, _ = fs.ReadDir(trimSlash(miss, kind))
+					return nil
+				})
 			case "open-read":
 				call(func() error {
 					f, e := fs.OpenFile(f2, os.O_RDONLY)
@@ -566,7 +593,7 @@ func trimSlash(p, kind string) string {
 
 func init() {
 	hx.Register(&hx.Spec{ID: "C11", Gen: genC11, Exec: execC11, New: func() any { return new(c11Case) },
-		Rule: "case = image (GPT or MBR disk with fat32/ext4/fat16 partitions, whole-disk fat12/fat16, finalized iso9660/squashfs) x read-only route (backend whose Writable() fails, file.New(readOnly), diskfs.Open(ReadOnly) on a real file, OpenFromPath(readOnly)) or a writable device used for reads only, x interleaved sequence of mutating and reading entry points; oracle = no WriteAt reaches the device / file hash unchanged after every step, and every call that must change the image returns an error; non-trivial = >= 3 distinct mutating entry points attempted after a read (or >= 3 reads in the reads-only family); distinct by hash of the case JSON"})
+		Rule: "case = image (GPT or MBR disk with fat32/ext4/fat16 partitions, whole-disk fat12/fat16, finalized iso9660/squashfs) x read-only route (backend whose Writable() fails, file.New(readOnly) over a device and over a read-write *os.File, diskfs.Open(ReadOnly) on a real file, OpenFromPath(readOnly)) or a writable device used for reads only, x interleaved sequence of mutating and reading entry points; oracle = no WriteAt reaches the device / file hash unchanged after every step, and every call that must change the image returns an error; non-trivial = >= 3 distinct mutating entry points attempted after a read (or >= 3 reads in the reads-only family); distinct by hash of the case JSON"})
 }
 
 func TestC11(t *testing.T) { hx.RunProp(t, "C11") }
